@@ -1452,3 +1452,21 @@ M("C07", "handler-args-crossed", CUG,
   """    update_graph_for_loop_start_events(
         loop.end_events, loop.loop_events, loop_event, graph
     )""", "R7.8", "start handler fed with the end events")
+M("C08", "outer-sort-first", SEQ,
+  """        return sorted(
+            [
+                sorted(group, key=lambda x: x.start_timestamp)
+                for group in groups
+            ],
+            key=lambda x: x[0].start_timestamp,
+        )""",
+  """        return [
+            sorted(group, key=lambda x: x.start_timestamp)
+            for group in sorted(groups, key=lambda x: x[0].start_timestamp)
+        ]""", "R8.5", "groups ordered before their members are sorted")
+M("C16", "trunc-micro", P2T,
+  """    unix_timestamp = int(dt.replace(microsecond=0).timestamp())
+    # Convert the Unix timestamp to nanoseconds, adding the microseconds once
+    unix_nano = unix_timestamp * 10**9 + dt.microsecond * 10**3""",
+  """    unix_nano = int(dt.timestamp() * 10**6) * 10**3""", "R16.2",
+  "float microseconds truncated: about 1% of instants come out 1 us early")
